@@ -87,7 +87,7 @@ class World:
         if self.steps < 3000 and not self.task.done():
             for line, q in (("h2n", sw.h2n), ("n2h", sw.n2h)):
                 if q:
-                    for f in ("drop", "corrupt", "dup"):
+                    for f in ("drop", "corrupt", "dup") + (("dup2",) if line == "n2h" else ()):
                         out.append((("dlv", line, f), 1))
         return out
 
@@ -99,6 +99,8 @@ class World:
         if label[0] == "end":
             self.ended = True
             self._final()
+            for e in sw.loop.escaped_callback_exceptions():
+                self.viol.append(f"an exception escaped from a protocol / loop callback during bring-up: {e}")
             return
         if label[0] == "dlv":
             q = sw.h2n if label[1] == "h2n" else sw.n2h
@@ -132,7 +134,7 @@ class World:
         # the first frame the host originates (ACK/NAK reactions to incoming bytes aside) is the CANCEL-prefixed RST,
         # unless the start-up reset was seen on a socket path
         first_host = next((b for t, d, b in sw.wire_log if d == "h2n" and frame_kind(b) not in ("ACK", "NAK")), None)
-        startup_seen = self.p["path"].startswith("socket://") and self.spont_fate in ("ok", "dup")
+        startup_seen = self.p["path"].startswith("socket://") and self.spont_fate in ("ok", "dup", "dup2")
         if first_host is not None and not startup_seen and first_host != RST_WIRE:
             self.viol.append(f"first frame the host sends is {first_host.hex()}, expected the CANCEL-prefixed RST frame 1ac038bc7e")
         # A spontaneous RSTACK that is still in flight when the host sends its own RST is indistinguishable from the
@@ -271,7 +273,7 @@ def main(tier: str) -> int:
         "max_depth": st.max_depth,
         "configurations": len(param_list(tier)),
         "rule": "per (NCP version, device path, spontaneous start-up RSTACK variant): the fault-free bring-up + second reset, and one execution for every (wire frame, fault in {loss, "
-                "detectable corruption, duplication}) (thorough: every pair for v4/v8/v14); distinct = distinct (final phases, fault placement) signatures",
+                "detectable corruption, duplication (separate reads, or both copies in one read)}) (thorough: every pair for v4/v8/v14); distinct = distinct (final phases, fault placement) signatures",
         "samples": st.samples[:3],
     }
     rep.assumptions = [
